@@ -53,6 +53,9 @@ of numbers the model computes from the input —
 * every edge is longer than the determinant guard `eps` of `Line::intersection`;
 * at every interior point the first guard of `compute_normal` is not taken (`|t0 + t1|² ≥ 1e-4`: no U-turn)
   and the fold test of `compute_join_side_positions_fixed_width` (the model's own) answers "no fold";
+* with `LineJoin::MiterClip` only: no miter exceeds the miter limit (the model's `miter_limit_is_exceeded` answers
+  no at every interior point: the join is then tessellated exactly like a `Miter` join; a CLIPPED `MiterClip`
+  join is not covered by the theorems);
 * every edge is at least `w/2 · (|tan(θ_a/2)| + |tan(θ_b/2)| + 1)` long, `θ_a`, `θ_b` the turn angles at
   its two ends (`0` at a cap): neighbouring joins do not interact. -/
 def Regime (e : Env K) (eps : K) (pt : Nat → P K) (n : Nat) : Prop :=
@@ -61,9 +64,10 @@ def Regime (e : Env K) (eps : K) (pt : Nat → P K) (n : Nat) : Prop :=
   ∧ (∀ i, i < n - 1 → ¬ (eT pt i + eT pt (i + 1)).sqLen < normalEpsilon)
   ∧ (∀ i, i < n - 1 → noFoldAt e (pt i) (pt (i + 1)) (pt (i + 1 + 1)))
   ∧ (∀ i, i < n → e.hwFw * (tauAbs pt n i + tauAbs pt n (i + 1) + 1) ≤ eL pt i)
+  ∧ (∀ i, i < n - 1 → e.o.join = .miterClip → keptAt e (pt i) (pt (i + 1)) (pt (i + 1 + 1)))
 
 noncomputable instance (e : Env K) (eps : K) (pt : Nat → P K) (n : Nat) : Decidable (Regime e eps pt n) := by
-  unfold Regime noFoldAt; infer_instance
+  unfold Regime noFoldAt keptAt; infer_instance
 
 /-- a turn of at most 90° never folds: the model's fold test needs `next_tangent · prev_tangent < 0` -/
 theorem noFoldAt_of_dot_nonneg (e : Env K) (p j n : P K)
@@ -84,14 +88,15 @@ def EdgeQuad (E : P K × P K × P K → Prop) (e : Env K) (pt : Nat → P K) (n 
      pt (k + 1) - (perp (eT pt k)).smul e.hwFw + (eT pt k).smul (e.hwFw * sB0 e pt n k))
 
 /-- the standing hypotheses on the environment: exact arithmetic with the `sqrt` laws, the exact
-`Line::intersection` with guard `eps`, fixed positive width, Bevel or Miter join, butt or square caps -/
+`Line::intersection` with guard `eps`, fixed positive width, Bevel, Miter or MiterClip join (for MiterClip the
+regime asks that no miter is clipped), butt or square caps -/
 structure CoverHyp (e : Env K) (eps : K) : Prop where
   sqrt_nonneg : ∀ x : K, 0 ≤ x → 0 ≤ Transc.sqrt x
   sqrt_sq : ∀ x : K, 0 ≤ x → Transc.sqrt x * Transc.sqrt x = x
   ix_eq : e.ix = lineIntersection eps
   eps_nonneg : 0 ≤ eps
   fw : e.o.varWidth = false
-  join : e.o.join = .bevel ∨ e.o.join = .miter
+  join : e.o.join = .bevel ∨ e.o.join = .miter ∨ e.o.join = .miterClip
   scap : e.o.startCap ≠ .round
   ecap : e.o.endCap ≠ .round
   hw : 0 < e.hwFw
@@ -108,7 +113,12 @@ theorem regime_sq {e : Env K} {eps : K} (h : CoverHyp e eps) {pt : Nat → P K} 
 
 theorem regime_jclosed {e : Env K} {eps : K} (h : CoverHyp e eps) {pt : Nat → P K} {n : Nat} (hr : Regime e eps pt n)
     (k : Nat) (hk : k + 1 < n) : JClosed e pt k (psAt e pt (k + 1)) (nsAt e pt (k + 1)) :=
-  jEP_closed e h.join h.sqrt_nonneg h.sqrt_sq pt k (regime_sq h hr k (by omega)) (regime_sq h hr (k + 1) hk)
+  jEP_closed e h.sqrt_nonneg h.sqrt_sq pt k
+    (by rcases h.join with hj | hj | hj
+        · exact Or.inl hj
+        · exact Or.inr (Or.inl hj)
+        · exact Or.inr (Or.inr ⟨hj, hr.2.2.2.2.2 k (by omega) hj⟩))
+    (regime_sq h hr k (by omega)) (regime_sq h hr (k + 1) hk)
     (hr.2.2.1 k (by omega)) (hr.2.2.2.1 k (by omega))
 
 theorem smul_zero_r (a v : P K) (w : K) : a + v.smul (w * 0) = a := by
@@ -361,7 +371,7 @@ theorem trapK {e : Env K} {eps : K} (h : CoverHyp e eps) {pt : Nat → P K} {n :
   obtain ⟨hL, _, hd⟩ := edge_eq h.sqrt_nonneg h.sqrt_sq pt k (regime_sq h hr k hk)
   obtain ⟨q1, q2⟩ := edge_quads h hr hE k hk
   obtain ⟨b1, b2, b3, b4⟩ := shift_bounds e pt n k hk
-  have hreg := hr.2.2.2.2 k hk
+  have hreg := hr.2.2.2.2.1 k hk
   have hw := h.hw
   have t0 := tauAbs_nonneg pt n k
   have t1 := tauAbs_nonneg pt n (k + 1)
@@ -431,7 +441,7 @@ theorem edge_cover {e : Env K} {eps : K} (h : CoverHyp e eps) {pt : Nat → P K}
         rw [hpt2]
         have hloN := D.loNext y'
         obtain ⟨b1, b2, b3, b4⟩ := shift_bounds e pt n (k + 1) hk1
-        have hreg := hr.2.2.2.2 (k + 1) hk1
+        have hreg := hr.2.2.2.2.1 (k + 1) hk1
         rw [tauAbs_mid pt n k hk1, ← D.tabs] at hreg
         have hT2 := tauAbs_nonneg pt n (k + 1 + 1)
         refine trapK h hr hE (k + 1) hk1 (e.hwFw * x') (ε * y') hzb hzb1 ?_ ?_
@@ -489,7 +499,7 @@ theorem edge_cover {e : Env K} {eps : K} (h : CoverHyp e eps) {pt : Nat → P K}
       rw [hpt2]
       have hhiP := D.hiPrev y'
       obtain ⟨b1, b2, b3, b4⟩ := shift_bounds e pt n k' (by omega)
-      have hreg := hr.2.2.2.2 k' (by omega)
+      have hreg := hr.2.2.2.2.1 k' (by omega)
       rw [tauAbs_mid pt n k' hk1, ← D.tabs] at hreg
       have hT0 := tauAbs_nonneg pt n k'
       have hnl : ¬ (k' + 1 = n) := by omega
@@ -522,7 +532,7 @@ variable {K : Type} [Field K] [LinearOrder K] [IsStrictOrderedRing K] [Transc K]
 theorem regime_emitted {e : Env K} {eps : K} (h : CoverHyp e eps) (store : Nat → List K) {pt : Nat → P K} {n : Nat}
     (hn : 1 ≤ n) (hr : Regime e eps pt n) : Emitted e pt n (runEvents e store (polyEvs pt n)).st.out := by
   refine run_emitted e store h.fw ?_ h.scap h.ecap (ne_of_gt h.hw) pt n hn hr.1 ?_
-  · rcases h.join with hj | hj <;> rw [hj] <;> decide
+  · rcases h.join with hj | hj | hj <;> rw [hj] <;> decide
   · intro i h1 h2
     obtain ⟨i', rfl⟩ : ∃ i', i = i' + 1 := ⟨i - 1, by omega⟩
     exact hr.2.2.2.1 i' (by omega)
